@@ -225,6 +225,7 @@ func c03plan(tier string, seed int64) []run.Job {
 	for i := 0; i < nr; i++ {
 		jobs = append(jobs, run.Job{Family: "random", Seed: seed*100000 + int64(i), N: per, P: map[string]int{"strat": 1, "lrfree": 1, "maxlen": 7, "inputs": 5}})
 		jobs = append(jobs, run.Job{Family: "sharing", Seed: seed*100000 + 60000 + int64(i), N: per * 8, P: map[string]int{"trims": 0}})
+		jobs = append(jobs, run.Job{Family: "strings", Seed: seed*100000 + 65000 + int64(i), N: per, P: map[string]int{"inputs": 6}})
 		// LR-free grammars with LeftTrim wrappers (LeftTrim rewrites error positions and the context's error) and End leaves
 		// RightTrim around sequences (fresh nodes; K1 - RightTrim moving a SHARED node - stays outside this check, hence no
 		// extra Memoize wrappers around sub-expressions here: one could land on a RightTrim operand)
